@@ -117,7 +117,7 @@ def _relayout(draw, line):
 @st.composite
 def _unit(draw):
     g = _G(draw)
-    pick = draw(st.integers(0, 62))
+    pick = draw(st.integers(0, 64))
     sup = True
     pre = ""
     label = ""
@@ -433,6 +433,22 @@ def _unit(draw):
         body = (f"def build(d, tight):\n{ind}if tight:\n{ind}{ind}def sel({a}): return {a} * 3 + {m1}{c}\n{ind}else:\n{ind}{ind}def sel({a}): return {a} * 5 + {m2}{c}\n"
                 f"{ind}return d.{o}(sel)\n{calls}\nq = q0")
         label = "one-line-def-same-name-in-both-arms-of-if"
+    elif pick in (63, 64):
+        # a triple-quoted string literal that continues on an indented line, inside a single-return def (nested in a function /
+        # a method) or inside a lambda in an indented context: the text of the literal must survive any re-indentation
+        o = g.op()
+        a = draw(st.sampled_from(ARGS))
+        g.n += 1
+        m = 1000 + g.n * 17
+        c = " > 0" if o == "Where" else ""
+        ind = draw(st.sampled_from(["    ", "        ", "\t"]))
+        lit = '"""p\n' + ind + ind + 'q"""'
+        if pick == 63:
+            body = f"def outer(ds):\n{ind}def f1({a}): return {a} * 3 + {m} + len({lit}){c}\n{ind}return ds.{o}(f1)\nq = outer(ds)"
+        else:
+            body = f"def outer(ds):\n{ind}return ds.{o}(lambda {a}: {a} * 3 + {m} + len({lit}){c})\nq = outer(ds)"
+        sup = False
+        label = "multi-line-string-literal-in-indented-def-or-lambda"
     elif pick >= 42 and pick <= 58:
         # free-form layout: a chain of 2-3 calls, then line breaks (and comments) at random places where python allows them
         ncalls = draw(st.integers(2, 3))
